@@ -9,15 +9,23 @@ if [ "$REPO" != "/repo" ]; then
     sed -i "s#/repo/#$REPO/#g" shuttle_engine/shadow/rodbus/Cargo.toml shuttle_engine/shadow/rodbus-ffi/Cargo.toml
 fi
 ALL="C01 C02 C03 C04 C05 C06 C07 C08 C09 C10 C11 C12 C13 C14 C15 C16 C17 C18 C19 C20"
+# optional sharding: benign_sweep.sh <k> <n>; VERIF_SWEEP_LEAN=1 leaves out the Miri engine (C18/C19), whose
+# rebuild per change dominates the time
+K="${1:-0}"; N="${2:-1}"; I=0
 : > benign_results.txt
 for D in benign/*/; do
+    I=$((I+1)); [ $((I % N)) -eq "$K" ] || continue
     ID=$(basename "$D")
     [ -f "$D/patch.diff" ] || continue
     git -C "$REPO" checkout -q -- .
     if ! git -C "$REPO" apply "$ROOT/$D/patch.diff" 2>/dev/null; then echo "$ID APPLY-FAILED" | tee -a benign_results.txt; continue; fi
     BAD=""
     for Q in $ALL; do
-        OUT=$(./check $Q --tier quick 2>&1); R=$?
+        if [ -n "$VERIF_SWEEP_LEAN" ] && { [ "$Q" = C18 ] || [ "$Q" = C19 ]; }; then
+            OUT=$(./check $Q --tier quick --only "" 2>&1); R=$?
+        else
+            OUT=$(./check $Q --tier quick 2>&1); R=$?
+        fi
         if [ $R -ne 0 ]; then BAD="$BAD $Q=$R"; echo "$OUT" | grep -E -m2 "rule=|HARNESS" | cut -c1-400 | sed "s/^/    $ID $Q: /" | tee -a benign_results.txt; fi
     done
     echo "$ID alarms:[$BAD ]" | tee -a benign_results.txt
